@@ -127,18 +127,78 @@ func clientExchange(w *World) *ssa.Function {
 	return nil
 }
 
-// isForwarderOver: v is the result of a repository function that wraps (req, conn) into the forwarder handed to
-// x/crypto's ServeAgent, with conn == wantConn expression.
-func isForwarderOver(w *World, v ssa.Value, wantConn string) bool {
-	call, ok := strip(v).(*ssa.Call)
+// isForwarderOver: v (the connection handed to x/crypto's ServeAgent) is a repository struct value whose io.Writer
+// field holds the served connection root.Params[connIdx] - built in place, or by a constructor from its parameter.
+func isForwarderOver(w *World, root *ssa.Function, v ssa.Value, connIdx int) bool {
+	if root == nil || connIdx >= len(root.Params) {
+		return false
+	}
+	conn := ssa.Value(root.Params[connIdx])
+	writerOf := func(al *ssa.Alloc) ssa.Value {
+		st, ok := al.Type().(*types.Pointer).Elem().Underlying().(*types.Struct)
+		if !ok || !w.InRepoType(al.Type().(*types.Pointer).Elem()) {
+			return nil
+		}
+		fs := FieldStores(al.Parent(), al)
+		var out ssa.Value
+		n := 0
+		for i := 0; i < st.NumFields(); i++ {
+			if st.Field(i).Type().String() != "io.Writer" {
+				continue
+			}
+			n++
+			if vals := fs[st.Field(i).Name()]; len(vals) == 1 {
+				out = vals[0]
+			}
+		}
+		if n != 1 {
+			return nil
+		}
+		return out
+	}
+	structAlloc := func(x ssa.Value) *ssa.Alloc {
+		x = strip(x)
+		if ld, ok := x.(*ssa.UnOp); ok && ld.Op == token.MUL {
+			x = ld.X
+		}
+		al, _ := x.(*ssa.Alloc)
+		return al
+	}
+	v = strip(v)
+	if al := structAlloc(v); al != nil {
+		wv := writerOf(al)
+		return wv != nil && w.canon(root, wv) == conn
+	}
+	call, ok := v.(*ssa.Call)
 	if !ok {
 		return false
 	}
 	callee := call.Call.StaticCallee()
-	if callee == nil || !w.InRepo(callee) || len(call.Call.Args) != 2 {
+	if callee == nil || !w.InRepo(callee) || len(callee.Blocks) == 0 {
 		return false
 	}
-	return w.Expr(call.Call.Args[1]) == wantConn && strings.HasSuffix(w.Expr(call.Call.Args[0]), "#0")
+	rets := liveReturns(callee)
+	if len(rets) == 0 {
+		return false
+	}
+	for _, r := range rets {
+		if len(r.Results) != 1 {
+			return false
+		}
+		al := structAlloc(r.Results[0])
+		if al == nil {
+			return false
+		}
+		prm, isParam := throughCell(strip(writerOf(al))).(*ssa.Parameter)
+		if !isParam || prm.Parent() != callee {
+			return false
+		}
+		idx := paramIndex(prm)
+		if idx < 0 || idx >= len(call.Call.Args) || w.canon(root, call.Call.Args[idx]) != conn {
+			return false
+		}
+	}
+	return true
 }
 
 // globalsOfType: package-level variables of pkg whose type string equals ts.
@@ -216,4 +276,10 @@ func funcBySignature(w *World, pkg string, paramSuffixes ...string) *ssa.Functio
 		}
 	}
 	return nil
+}
+
+// InRepoType: t (or what it points to) is a named type declared in the repository.
+func (w *World) InRepoType(t types.Type) bool {
+	n := derefNamedT(t)
+	return n != nil && n.Obj().Pkg() != nil && strings.HasPrefix(n.Obj().Pkg().Path(), RepoMod)
 }
